@@ -975,3 +975,195 @@ Proof.
   intros Hts H. apply fo_rules_lemma in H. cbv zeta in H. destruct ns as [|t ts]; [congruence|].
   eapply Forall2_imp; [|exact H]. intros om b (r & H1 & H2). exists r. split; assumption.
 Qed.
+
+(* ================================================================================================ *)
+(* the conversion checker                                                                          *)
+(* ================================================================================================ *)
+
+(* what the property demands of a conversion result, whatever the category sizes: the ballot list is
+   duplicate-free and is the key set of the multiplicity table, all ballots have k categories, and
+   there is an assignment of a listed ballot to every source order that partitions the order into
+   runs of whole consecutive classes, such that every listed ballot is used and its multiplicity is
+   the sum of the multiplicities of the orders assigned to it *)
+Definition ValidConversion (src : list (order * N)) (prefs : list ballot) (mult : list (ballot * N))
+           (k : N) : Prop :=
+  NoDup prefs /\ NoDup (map fst mult) /\
+  (forall b, In b prefs <-> In b (map fst mult)) /\
+  Forall (fun b => lenN b = k) prefs /\
+  exists assign : list ballot,
+    Forall2 (fun om b => In b prefs /\ Partition (fst om) b) src assign /\
+    forall b, In b prefs ->
+      In b assign /\ lookup b mult = Some (wsum b (combine assign (map snd src))).
+
+Lemma strip_prefix_iff c : forall cat rest, strip_prefix c cat = Some rest <-> cat = c ++ rest.
+Proof.
+  induction c as [|x c IH]; intros cat rest; simpl.
+  - split; intros H; congruence.
+  - destruct cat as [|y cat]; [split; discriminate|].
+    destruct (N.eqb_spec x y) as [E|E].
+    + subst y. rewrite IH. split; intros H; congruence.
+    + split; [discriminate | intros H; congruence].
+Qed.
+
+Lemma fill_nil o : fill o [] = Some o.
+Proof. destruct o; reflexivity. Qed.
+
+Lemma fill_sound : forall o cat o', fill o cat = Some o' -> exists g, o = g ++ o' /\ concat g = cat.
+Proof.
+  induction o as [|c o IH]; intros cat o' H.
+  - destruct cat; simpl in H; [|discriminate]. inversion H; subst. exists []. split; reflexivity.
+  - destruct cat as [|y cat].
+    + simpl in H. inversion H; subst. exists []. split; reflexivity.
+    + cbn [fill] in H. destruct (strip_prefix c (y :: cat)) as [rest|] eqn:Hs; [|discriminate].
+      apply strip_prefix_iff in Hs. apply IH in H. destruct H as (g & Ho & Hg).
+      exists (c :: g). simpl. split; congruence.
+Qed.
+
+Lemma fill_complete : forall g o', Forall (fun c => c <> []) g -> fill (g ++ o') (concat g) = Some o'.
+Proof.
+  induction g as [|c g IH]; intros o' Hne; simpl.
+  - apply fill_nil.
+  - inversion Hne as [|? ? Hc Hg]; subst. destruct c as [|x c]; [congruence|].
+    cbn [app fill].
+    assert (Hs : strip_prefix (x :: c) (x :: c ++ concat g) = Some (concat g)).
+    { apply strip_prefix_iff. reflexivity. }
+    rewrite Hs. apply IH, Hg.
+Qed.
+
+Lemma partition_check_sound : forall b o, partition_check o b = true -> Partition o b.
+Proof.
+  induction b as [|cat b IH]; intros o H; simpl in H.
+  - destruct o; [|discriminate]. exists []. split; reflexivity.
+  - destruct (fill o cat) as [o'|] eqn:Hf; [|discriminate].
+    apply fill_sound in Hf. destruct Hf as (g & Ho & Hg).
+    apply IH in H. destruct H as (groups & H1 & H2).
+    exists (g :: groups). subst o o' cat b. split; reflexivity.
+Qed.
+
+Lemma partition_check_complete o b :
+  Forall (fun c => c <> []) o -> Partition o b -> partition_check o b = true.
+Proof.
+  intros Hne (groups & H1 & H2). subst o b.
+  induction groups as [|g gs IH]; simpl; [reflexivity|].
+  simpl in Hne. apply Forall_app in Hne. destruct Hne as [Hg Hgs].
+  rewrite fill_complete by assumption. apply IH, Hgs.
+Qed.
+
+Lemma choices_iff {T} (cands : list (list T)) : forall l,
+  In l (choices cands) <-> Forall2 (fun x c => In x c) l cands.
+Proof.
+  induction cands as [|c cs IH]; intros l; simpl.
+  - split.
+    + intros [H|[]]. subst. constructor.
+    + intros H. inversion H. left. reflexivity.
+  - rewrite in_flat_map. split.
+    + intros (x & Hx & Hl). apply in_map_iff in Hl. destruct Hl as (l' & El & Hl'). subst l.
+      constructor; [assumption | apply IH, Hl'].
+    + intros H. inversion H as [|x ? l' ? Hx Hl']; subst. exists x. split; [assumption|].
+      apply in_map_iff. exists l'. split; [reflexivity | apply IH, Hl'].
+Qed.
+
+Lemma wsum_b_eq b items : wsum_b b items = wsum b items.
+Proof.
+  induction items as [|[k m] items IH]; simpl; auto. rewrite IH.
+  destruct (ballot_eqb_spec b k); destruct (ballot_eq_dec b k); congruence.
+Qed.
+
+Lemma nodupb_iff l : nodupb l = true <-> NoDup l.
+Proof.
+  induction l as [|x l IH]; simpl.
+  - split; [constructor | reflexivity].
+  - rewrite andb_true_iff, negb_true_iff, mem_false_iff, IH. split.
+    + intros [H1 H2]. constructor; assumption.
+    + intros H. inversion H. split; assumption.
+Qed.
+
+Lemma Forall2_map_l {T U V} (P : U -> V -> Prop) (f : T -> U) l1 l2 :
+  Forall2 P (map f l1) l2 <-> Forall2 (fun x y => P (f x) y) l1 l2.
+Proof.
+  revert l2. induction l1 as [|x l1 IH]; intros l2; simpl.
+  - split; intros H; inversion H; constructor.
+  - split; intros H; inversion H; subst; constructor; auto; apply IH; assumption.
+Qed.
+
+Lemma Forall2_flip {T U} (P : T -> U -> Prop) l1 l2 :
+  Forall2 P l1 l2 <-> Forall2 (fun y x => P x y) l2 l1.
+Proof. split; intros H; induction H; constructor; auto. Qed.
+
+Lemma Forall2_iff_strong {T U} (P Q : T -> U -> Prop) l1 l2 :
+  (forall x y, In x l1 -> (P x y <-> Q x y)) -> (Forall2 P l1 l2 <-> Forall2 Q l1 l2).
+Proof.
+  revert l2. induction l1 as [|x l1 IH]; intros l2 H.
+  - split; intros F; inversion F; constructor.
+  - split; intros F; inversion F; subst; constructor;
+      try (apply (H x); [left; reflexivity | assumption]);
+      apply (IH _ (fun a b Ha => H a b (or_intror Ha))); assumption.
+Qed.
+
+Theorem conv_check_correct_lemma src prefs mult k :
+  Forall (fun om => Forall (fun c => c <> []) (fst om)) src ->
+  (conv_check src prefs mult k = true <-> ValidConversion src prefs mult k).
+Proof.
+  intros Hwf. unfold conv_check, ValidConversion.
+  rewrite !andb_true_iff, !nodupb_iff, !forallb_forall, existsb_exists.
+  assert (Hassign : forall assign,
+    (In assign (choices (map (fun om => filter (partition_check (fst om)) prefs) src)) <->
+     Forall2 (fun om b => In b prefs /\ Partition (fst om) b) src assign)).
+  { intros assign. rewrite choices_iff, Forall2_flip, Forall2_map_l.
+    apply Forall2_iff_strong. intros om b Hom. rewrite filter_In.
+    rewrite Forall_forall in Hwf. specialize (Hwf _ Hom).
+    split; intros [H1 H2]; split; auto.
+    - apply partition_check_sound, H2.
+    - apply partition_check_complete; assumption. }
+  assert (Hok : forall assign,
+    assignment_ok prefs mult (map snd src) assign = true <->
+    forall b, In b prefs -> In b assign /\ lookup b mult = Some (wsum b (combine assign (map snd src)))).
+  { intros assign. unfold assignment_ok. rewrite forallb_forall.
+    split; intros H b Hb; specialize (H b Hb).
+    - apply andb_true_iff in H. destruct H as [H1 H2]. apply mem_iff in H1. split; auto.
+      destruct (lookup b mult); [|discriminate]. apply N.eqb_eq in H2. rewrite wsum_b_eq in H2. congruence.
+    - destruct H as [H1 H2]. apply andb_true_iff. split; [apply mem_iff, H1|].
+      rewrite H2, wsum_b_eq. apply N.eqb_refl. }
+  split.
+  - intros [[[[[H1 H2] H3] H4] H5] (assign & Ha & Hb)]. splits; auto.
+    + intros b. split; intros Hb'.
+      * apply mem_iff, H3, Hb'.
+      * apply mem_iff, H4, Hb'.
+    + apply Forall_forall. intros b Hb'. apply N.eqb_eq, H5, Hb'.
+    + exists assign. split; [apply Hassign, Ha | apply Hok, Hb].
+  - intros (H1 & H2 & H3 & H5 & assign & Ha & Hb). splits; auto.
+    + intros b Hb'. apply mem_iff, H3, Hb'.
+    + intros b Hb'. apply mem_iff, H3, Hb'.
+    + intros b Hb'. rewrite Forall_forall in H5. apply N.eqb_eq, H5, Hb'.
+    + exists assign. split; [apply Hassign, Ha | apply Hok, Hb].
+Qed.
+
+Lemma Forall2_strengthen_r {T U} (P : T -> U -> Prop) (Q : U -> Prop) l1 l2 :
+  Forall2 P l1 l2 -> (forall y, In y l2 -> Q y) -> Forall2 (fun x y => Q y /\ P x y) l1 l2.
+Proof.
+  intros F. induction F as [|x y l1 l2 Hxy F IH]; intros H; constructor.
+  - split; [apply H; left; reflexivity | assumption].
+  - apply IH. intros y' Hy'. apply H. right. assumption.
+Qed.
+
+(* the result of from_ordinal is a valid conversion (consequence of partition, padding, conservation) *)
+Lemma fo_output_valid_lemma src nic st rst ci :
+  from_ordinal src nic st rst = Ok ci ->
+  truthy nic || truthy st || truthy rst = true ->
+  ValidConversion (os_multiplicity src) (ci_preferences ci) (ci_multiplicity ci) (ci_num_categories ci).
+Proof.
+  intros H Ht.
+  pose proof (fo_conserve_lemma _ _ _ _ _ H) as Hc. cbv zeta in Hc.
+  pose proof (fo_partition_lemma _ _ _ _ _ H Ht) as Hp. cbv zeta in Hp.
+  pose proof (fo_padding_lemma _ _ _ _ _ H) as Hd. cbv zeta in Hd.
+  destruct Hc as (Hlen & Hfo & Hnd & Hin & Hkeys & Hlk & Hlook & _).
+  destruct Hp as (_ & _ & HF). destruct Hd as (_ & _ & _ & _ & Hk & _).
+  unfold ValidConversion. splits; auto.
+  - rewrite Hkeys. assumption.
+  - intros b. rewrite Hkeys. tauto.
+  - exists (fo_ballots nic st rst (os_multiplicity src)). split.
+    + apply Forall2_strengthen_r.
+      * eapply Forall2_imp; [|exact HF]. intros om b [_ H2]. exact H2.
+      * intros b. apply Hin.
+    + intros b Hb. apply Hin in Hb. split; [assumption | apply Hlook, Hb].
+Qed.
